@@ -380,7 +380,7 @@ func (self Node) Children(out *[]PathNode, recurse bool, opts *Options, desc *pr
 		Node: self,
 		Next: (*out)[:0], // NOTICE: we reset it to zero.
 	}
-	err = tree.scanChildren(&p, recurse, opts, desc, len(p.Buf))
+	err = tree.scanChildren(&p, recurse, opts, desc, len(p.Buf), 0)
 	if err == nil {
 		*out = tree.Next
 	}
